@@ -14,6 +14,7 @@ Record cfg := mkCfg {
   c_do_import : bool;      (* standalone: validates names itself *)
   c_no_open : bool; c_no_opendir : bool; c_writeback : bool; c_killpriv : bool; c_xattr : bool;
   c_cache : N;             (* 0 Never, 1 Metadata, 2 Auto, 3 Always *)
+  c_direct_io : bool;      (* allow_direct_io (default true): otherwise O_DIRECT is stripped from open and F_SETFL flags *)
   c_ifh : bool             (* inode_file_handles: inodes are reopened with open_by_handle_at, always as root: no effect on the calls modelled *)
 }.
 
@@ -81,6 +82,8 @@ Definition get_writeback_open_flags (cf : cfg) (flags : N) : N :=
             then N.lor (clear flags O_ACCMODE) O_RDWR else flags in
   if c_writeback cf && has flags O_APPEND then clear f1 O_APPEND else f1.
 
+Definition strip_direct (cf : cfg) (flags : N) : N := if c_direct_io cf then flags else clear flags O_DIRECT.
+
 Definition is_safe_inode (mode : N) : bool :=
   let f := N.land mode S_IFMT in (f =? S_IFREG) || (f =? S_IFDIR).
 
@@ -142,7 +145,7 @@ Definition open_inode (cf : cfg) (s : pstate) (inode flags : N) : res (N * N) * 
   | Some d =>
       if negb (is_safe_inode (id_mode d)) then (Err EBADF, s)
       else
-        let nf := clear (get_writeback_open_flags cf flags) O_DIRECT in
+        let nf := strip_direct cf (get_writeback_open_flags cf flags) in
         let of := clear (clear (N.lor nf O_CLOEXEC) O_NOFOLLOW) O_CREAT in
         match sys_reopen (p_creds s) (p_host s) (id_host d) of with
         | (Err e, h') => (Err e, with_host s h')
@@ -196,11 +199,15 @@ Definition get_data (cf : cfg) (no : bool) (s : pstate) (handle inode flags : N)
     | (Ok (hi, fl), s') => (Ok (None, new_hdata inode hi fl flags), s')
     end.
 
-(* check_fd_flags: fcntl(F_SETFL, flags) when the recorded flags differ *)
-Definition check_fd_flags (s : pstate) (hid : option N) (hd : hdata) (flags : N) : hdata * pstate :=
+(* check_fd_flags: when the recorded flags differ from the request's: fcntl(F_SETFL, host_flags) where host_flags are
+   the request's flags with the adjustments open_inode applies (no O_APPEND under writeback, no O_DIRECT
+   unless allow_direct_io); the request's flags are recorded *)
+Definition setfl_flags (cf : cfg) (flags : N) : N := strip_direct cf (get_writeback_open_flags cf flags).
+Definition check_fd_flags (cf : cfg) (s : pstate) (hid : option N) (hd : hdata) (flags : N) : hdata * pstate :=
   if hd_flags hd =? flags then (hd, s)
   else
-    let hd' := mkHdata (hd_inode hd) (hd_host hd) (hd_acc hd) (has flags O_APPEND) (hd_pos hd) flags (has flags O_DIRECT) in
+    let hd' := mkHdata (hd_inode hd) (hd_host hd) (hd_acc hd) (has (setfl_flags cf flags) O_APPEND) (hd_pos hd) flags
+                       (has (setfl_flags cf flags) O_DIRECT) in
     match hid with
     | Some k => (hd', mkP (p_host s) (p_creds s) (p_inodes s) (p_idmap s) (p_next_inode s)
                           (assoc_set k hd' (p_handles s)) (p_next_handle s))
@@ -526,7 +533,7 @@ Definition pstep (cf : cfg) (s : pstate) (q : req) : reply * option N * option N
       match get_data cf (c_no_open cf) s handle inode O_RDONLY with
       | (Err e, s1) => noslot (RpErr e) s1
       | (Ok (hid, hd), s1) =>
-          let (hd', s2) := check_fd_flags s1 hid hd flags in
+          let (hd', s2) := check_fd_flags cf s1 hid hd flags in
           if negb (acc_r (hd_acc hd')) then noslot (RpErr EBADF) s2
           (* O_DIRECT on the descriptor: offset, length and buffer must be block aligned; the server's buffers never are *)
           else if hd_direct hd' && (0 <? size) then noslot (RpErr EINVAL) s2
@@ -539,7 +546,7 @@ Definition pstep (cf : cfg) (s : pstate) (q : req) : reply * option N * option N
       match get_data cf (c_no_open cf) s handle inode O_RDWR with
       | (Err e, s1) => noslot (RpErr e) s1
       | (Ok (hid, hd), s1) =>
-          let (hd', s2) := check_fd_flags s1 hid hd flags in
+          let (hd', s2) := check_fd_flags cf s1 hid hd flags in
           let '(r, s3) := with_killpriv (c_killpriv cf && has fuse_flags WRITE_KILL_PRIV) s2 (fun s0 =>
               if negb (acc_w (hd_acc hd')) then (Err EBADF, s0)
               else if hd_direct hd' && (0 <? len data) then (Err EINVAL, s0)
